@@ -67,8 +67,9 @@
          that holds an even number of roots of the line/curve offset (the brackets are built from
          beta = atan(-v/u), but the implemented root function has its extrema at atan(v/u) + k pi,
          so its sign test cannot see them).  br = 0 (exactly this root in its bracket) and not
-         reported is a VIOLATION; br = 2 (undecidable: offset within 1e-9 rb of zero at a bracket
-         end) is tolerated and counted in stat.amb.
+         reported is a VIOLATION; br = 2 (undecidable: the offset is within 1e-9 rb of zero at
+         an end of this or an earlier bracket, so the bracket sequence cannot be reproduced with
+         certainty) is tolerated and counted in stat.amb.
      InvoluteSenseNegativeTangentAngle  clockwise involute, the oracle says inside, the code says
          outside, and nw: the tangent angle of the turn that makes the point inside is negative,
          which the code's unwrapping (it only ever ADDS multiples of 2 pi) cannot reach; happens
